@@ -67,7 +67,9 @@ THEOREMS = {
     "C18": ["Cntgs.C18.empty_offset_table", "Cntgs.C18.empty_stride", "Cntgs.C18.fresh_offset_table", "Cntgs.C18.fresh_stride",
             "Cntgs.C18.default_offset_table", "Cntgs.C18.default_stride", "Cntgs.C18.emptied_offset_table_partial",
             "Cntgs.C18.emptied_stride", "Cntgs.C18.ops_on_empty_offset_table", "Cntgs.C18.ops_on_empty_stride",
-            "Cntgs.C18.junk_independent_partial", "Cntgs.C18.usable_afterwards_partial", "Cntgs.C18.destroy_default"],
+            "Cntgs.C18.junk_independent_partial", "Cntgs.C18.usable_afterwards_partial", "Cntgs.C18.destroy_default",
+            "Cntgs.C18.emptied_offset_table_all_types", "Cntgs.C18.junk_independent_all_types", "Cntgs.C18.usable_afterwards_all_types",
+            "Cntgs.C18.usable_afterwards_stride"],
 }
 
 # violation tags raised by the harness monitors that count for a property
